@@ -467,6 +467,15 @@ func runReplay(path string) int {
 			}
 			fmt.Println("no data race reported by go test -race")
 			return 0
+		case "publication":
+			ok, out := c20PubReplay()
+			fmt.Println(tail(out, 1500))
+			if ok {
+				fmt.Printf("VIOLATION property=C20 replay=%s\n", path)
+				return 1
+			}
+			fmt.Println("every hash returned by GetSymHash was known to SymHash2Str in the stress test")
+			return 0
 		case "name":
 			ok, out := c17ReplayName(fmt.Sprint(obj["name"]), fmt.Sprint(obj["rest"]))
 			fmt.Printf("name %q: %s\n", obj["name"], out)
